@@ -6,7 +6,11 @@ from nvlib.check import Prop
 from props import c06_extract as T
 
 NSLOT, NOBJ, NVAR, NCALL, NSENT = 10, 4, 4, 4, 4
-NEFUN = 45
+LAYOUTS = [(1, 1), (1, 2), (2, 1), (3, 1)]      # replace_program() family: variables of the first / second inherit
+NEFUN = 72
+# groups that build a cycle while they run (an error injected in the middle legitimately leaves cyclic garbage) or
+# keep a call_out handle in a local (71: the injected error would leave the call_out pending)
+NO_FAULT = (13, 48, 71)
 
 
 def save_text(v):
@@ -87,6 +91,11 @@ class Gen:
         self.nstr = 0
         self.anon = 0
         self.inp = False
+        self.unl = [False, False]
+        self.seq = 0
+        self.lay = [None] * NOBJ        # layout of an rc object that has not replaced its program yet
+        self.robj = [False] * NOBJ      # clone of an rc program (no callbacks)
+        self.late = False       # second half of the history: the blueprints may be unloaded
 
     def new(self, kind, size=0):
         self.age += 1
@@ -113,13 +122,14 @@ class Gen:
         choices = [("newarr", 8), ("newmap", 5), ("newcls", 3), ("newbuf", 2), ("assign", 10), ("free", 6),
                    ("aset", 10), ("aget", 6), ("mset", 8), ("mdel", 4), ("newobj", 4), ("setvar", 6), ("getvar", 4),
                    ("dest", 2), ("cleanup", 2), ("drop", 1), ("call", 5), ("rmcall", 2), ("sweep", 3), ("sent", 4),
-                   ("rmsent", 2), ("rmcalln", 1), ("rmall", 1), ("newfun", 4), ("fill", 3), ("inp", 4), ("input", 3), ("deadcall", 3)]
+                   ("rmsent", 2), ("rmcalln", 1), ("rmall", 1), ("newfun", 4), ("fill", 3), ("inp", 4), ("input", 3), ("deadcall", 3),
+                   ("newobjr", 3), ("replace", 3)]
         choices += [("newmstr", 4), ("sappend", 4), ("sjoin", 3), ("sadd", 3), ("schar", 4)]
         if m == "unit":
             choices += [("newstr", 6), ("push", 6), ("pushr", 3), ("pop", 6), ("popto", 3), ("oref", 3),
-                        ("clones", 1), ("unclone", 1)]
+                        ("clones", 2), ("unclone", 2), ("unload", 1 if self.late else 0), ("reclaimu", 0 if self.cyclic else 3)]
         else:
-            choices += [("err", 4), ("efun", 12), ("srange", 4), ("rest", 8), ("resto", 2)]
+            choices += [("err", 4), ("efun", 12), ("srange", 4), ("rest", 8), ("resto", 2), ("fefun", 6), ("frest", 3), ("reclaim", 0 if self.cyclic else 3)]
         k = r.weighted(choices)
         S = self.slots
         if k == "newarr":
@@ -200,10 +210,31 @@ class Gen:
             self.emit("popto %d" % d)
         elif k == "newobj":
             o = r.below(NOBJ)
+            if not self.handle[o] and (self.obj[o] is None or self.obj[o].size == 2) and not self.unl[0]:
+                self.obj[o] = self.new("obj")
+                self.handle[o] = True
+                self.lay[o] = None
+                self.robj[o] = False
+            self.emit("newobj %d" % o)
+        elif k == "newobjr":
+            o, L = r.below(NOBJ), r.below(len(LAYOUTS))
             if not self.handle[o] and (self.obj[o] is None or self.obj[o].size == 2):
                 self.obj[o] = self.new("obj")
                 self.handle[o] = True
-            self.emit("newobj %d" % o)
+                self.lay[o] = L
+                self.robj[o] = True
+            self.emit("newobjr %d %d" % (o, L))
+        elif k == "replace":
+            ro = [o for o in self.alive_objs() if self.lay[o] is not None]
+            o = r.choice(ro) if ro and r.chance(9, 10) else r.below(NOBJ)
+            w = r.below(2)
+            if o in ro:
+                na, nb = LAYOUTS[self.lay[o]]
+                it = self.obj[o].items
+                self.obj[o].items = {i: it.get(i + na) for i in range(nb)} if w else {i: it.get(i) for i in range(na)}
+                self.obj[o].items = {i: v for i, v in self.obj[o].items.items() if v is not None}
+                self.lay[o] = None
+            self.emit("replace %d %d" % (o, w))
         elif k == "setvar":
             ao = self.alive_objs()
             o = r.choice(ao) if ao and r.chance(9, 10) else r.below(NOBJ)
@@ -250,11 +281,13 @@ class Gen:
         elif k == "call":
             ao = self.alive_objs()
             o = r.choice(ao) if ao and r.chance(9, 10) else r.below(NOBJ)
-            q, st, a, b = r.below(NCALL), r.below(2), self.pick_slot(), self.pick_slot()
+            # callback: 0 drops its arguments, 1 keeps the first, 2 raises an error, 3 destructs its own object
+            q, st, a, b = r.below(NCALL), r.weighted([(0, 4), (1, 4), (2, 2), (3, 2)]), self.pick_slot(), self.pick_slot()
             if o in ao and self.calls[q] is None:
-                if st and not self.can_hold(self.obj[o], S[a]):
+                if st == 1 and not self.can_hold(self.obj[o], S[a]):
                     st = 0
-                self.calls[q] = (o, st, S[a])
+                self.seq += 1
+                self.calls[q] = (o, st, S[a], self.seq)
             self.emit("call %d %d %d %d %d" % (q, o, st, a, b))
         elif k == "rmcall":
             q = r.below(NCALL)
@@ -271,13 +304,7 @@ class Gen:
                     self.calls[q] = None
             self.emit("rmall %d" % o)
         elif k == "sweep":
-            for q in range(NCALL):
-                c = self.calls[q]
-                if c is not None:
-                    o, st, a = c
-                    if st and self.obj[o] is not None and self.obj[o].size == 0:
-                        self.obj[o].items[q] = a
-                self.calls[q] = None
+            self.sweep()
             self.emit("sweep")
         elif k == "sent":
             ao = self.alive_objs()
@@ -341,13 +368,18 @@ class Gen:
                     S[d] = self.new("str", cur.size - (j - i + 1) + len(w))
                 self.emit("srange %d %d %d %s" % (d, i, j, w))
         elif k == "inp":
-            ao = self.alive_objs()
+            ao = [o for o in self.alive_objs() if self.lay[o] is None and not self.robj[o]]
             o = r.choice(ao) if ao and r.chance(9, 10) else r.below(NOBJ)
+            rearm = r.chance(1, 3)
             if o in ao and not self.inp:
-                self.inp = True
-            self.emit("inp %d %d %d" % (o, self.pick_slot(), self.pick_slot()))
+                self.inp = (o, rearm)
+            self.emit("%s %d %d %d" % ("inpr" if rearm else "inp", o, self.pick_slot(), self.pick_slot()))
         elif k == "input":
-            self.inp = False
+            # a re-arming callback of a live owner leaves a new input_to pending
+            if self.inp and self.inp is not True and self.inp[1] and self.obj[self.inp[0]] is not None and self.obj[self.inp[0]].size == 0:
+                self.inp = (self.inp[0], False)
+            else:
+                self.inp = False
             self.emit("input")
         elif k == "deadcall":
             # the pattern "pending call_out / sentence / input_to with captured values, owner destructed, then the
@@ -358,8 +390,9 @@ class Gen:
             o = r.choice(ao)
             for q in r.shuffle(list(range(NCALL)))[:r.range(1, 3)]:
                 if self.calls[q] is None:
-                    self.calls[q] = (o, 0, None)
-                    self.emit("call %d %d %d %d %d" % (q, o, r.below(2), self.pick_slot(), self.pick_slot()))
+                    self.seq += 1
+                    self.calls[q] = (o, 0, None, self.seq)
+                    self.emit("call %d %d %d %d %d" % (q, o, r.below(4), self.pick_slot(), self.pick_slot()))
             if r.chance(1, 2):
                 q = r.below(NSENT)
                 if self.sents[q] is None:
@@ -383,14 +416,14 @@ class Gen:
                             self.obj[oo].size = 2
                             self.obj[oo].items = {}
                 elif x == "sweep":
-                    for q in range(NCALL):
-                        self.calls[q] = None
+                    self.sweep()
                 else:
                     self.inp = False
                 self.emit(x)
         elif k == "clones":
             n = r.range(1, 40)
-            self.anon += n
+            if not self.unl[0]:
+                self.anon += n
             self.emit("clones %d" % n)
         elif k == "unclone":
             n = r.range(1, max(1, self.anon))
@@ -404,10 +437,47 @@ class Gen:
                 text = damage(text, r)
             if " " not in text and 0 < len(text) < 200 and not text.startswith("#"):
                 self.emit("%s %s" % (k, text))
+        elif k == "reclaimu":
+            self.emit("reclaimu")
+        elif k == "reclaim":
+            for o in range(NOBJ):
+                if self.handle[o] and self.obj[o] is not None and self.obj[o].size >= 1:
+                    self.handle[o] = False
+            self.emit("reclaim")
+        elif k == "unload":
+            w = r.below(2)
+            if not any(o is not None and o.size == 1 for o in self.obj):
+                self.unl[w] = True
+            self.emit("unload %d" % w)
+        elif k == "fefun":
+            f = r.below(NEFUN)
+            if f not in NO_FAULT:
+                # an error injected at one instruction (1..250), or (1 in 4) at every instruction in turn
+                self.emit("fefun %d %d %d %d" % (f, self.pick_slot(), self.pick_slot(), 0 if r.chance(1, 4) else r.range(1, 250)))
+        elif k == "frest":
+            text = save_text(random_value(r))
+            if r.chance(1, 2):
+                text = damage(text, r)
+            if " " not in text and 0 < len(text) < 200 and not text.startswith("#"):
+                self.emit("frest %s %d" % (text, 0 if r.chance(1, 3) else r.range(1, 120)))
         elif k == "err":
             self.emit("err %d %d" % (self.pick_slot(), self.pick_slot()))
         elif k == "efun":
             self.emit("efun %d %d %d" % (r.below(NEFUN), self.pick_slot(), self.pick_slot()))
+
+    def sweep(self):
+        # the newest call runs first (new_call_out inserts in front of the calls due at the same time)
+        for q in sorted([q for q in range(NCALL) if self.calls[q] is not None], key=lambda q: -self.calls[q][3]):
+            o, st, a, _ = self.calls[q]
+            if self.obj[o] is not None and self.obj[o].size == 0:
+                if st == 1:
+                    self.obj[o].items[q] = a
+                elif st == 3:
+                    self.obj[o].size = 1
+                    for x in range(NSENT):
+                        if self.sents[x] == o:
+                            self.sents[x] = None
+            self.calls[q] = None
 
     def teardown(self):
         """release every holder: afterwards the counters must be back at the baseline"""
@@ -442,7 +512,12 @@ class C06(Prop):
     id = "C06"
     title = "Reference counts are exact: no leaks, nothing freed while referenced"
     lean_modules = ["NV.C06.Props", "NV.C06.Witness"]
-    theorems = ["NV.C06.widths_agree", "NV.C06.ref_eq_holders", "NV.C06.no_free_while_held",
+    theorems = ["NV.C06.prog_widths_agree", "NV.C06.incRef_prog_matches", "NV.C06.decRef_prog_matches", "NV.C06.no_dangling_reference",
+                "NV.C06.program_alive_while_referenced", "NV.C06.prog_ref_eq_holders", "NV.C06.unreferenced_is_deallocated",
+                "NV.C06.holders_eq_H", "NV.C06.run_DE", "NV.C06.oracle_ref_clause", "NV.C06.oracle_freed_clause", "NV.C06.oracle_leak_clause",
+                "NV.C06.oracle_string_clauses", "NV.C06.arrBytes_matches", "NV.C06.collect1_fix", "NV.C06.oracle_accepts_model_state",
+                "NV.C06.sweep_runs_every_pending_call_once",
+                "NV.C06.widths_agree", "NV.C06.ref_eq_holders", "NV.C06.no_free_while_held",
                 "NV.C06.primitives_preserve_invariant", "NV.C06.string_never_freed_while_held", "NV.C06.string_cells_never_freed_while_held",
                 "NV.C06.string_saturates", "NV.C06.no_inplace_modification_while_shared", "NV.C06.extendInPlace_sole",
                 "NV.C06.joinInPlace_sole", "NV.C06.unlink_inplace_sole", "NV.C06.add_never_inplace", "NV.C06.sole_of_ref_one", "NV.C06.incRef_str_matches",
@@ -457,6 +532,7 @@ class C06(Prop):
               ("funRefBits", "sizeof(((funptr_t*)0)->hdr.ref) * 8"),
               ("objRefBits", "sizeof(((object_t*)0)->ref) * 8"),
               ("progRefBits", "sizeof(((program_t*)0)->ref) * 8"),
+              ("progFuncRefBits", "sizeof(((program_t*)0)->func_ref) * 8"),
               ("strRefBits", "sizeof(((malloc_block_t*)0)->ref) * 8"),
               ("sharedRefBits", "sizeof(((block_t*)0)->refs) * 8"),
               ("sizeofArrayT", "sizeof(array_t)"),
@@ -468,18 +544,31 @@ class C06(Prop):
     search_n = 600
     design_ref = "5/C06"
     technique = ("Lean 4 proof (counter = number of holders invariant over all micro-instruction sequences, wrap-around "
-                 "and saturation arithmetic of the real widths) + translator-generated counter widths + "
+                 "and saturation arithmetic of the real widths; programs, inherit tables and object structures are cells of the same heap) + "
+                 "translator-generated counter widths, counter updates (INC/DEC_COUNTED_REF, free_svalue, assign_svalue_no_free, "
+                 "reference_prog, free_prog), in-place decisions of the string primitives and textual checks of the holder sites + "
                  "model/implementation correspondence on the real primitives and through the LPC interpreter + "
+                 "error injection at every instruction (hook H2) + "
                  "specification oracle (declarative exact-counting semantics) on every implementation trace")
     level_text = ("PARTIAL. Lean 4 theorems about an executable model of the reference-counting primitives "
                   "(assign_svalue, assign_svalue_no_free, free_svalue with recursive release, push/pop, allocation, "
-                  "mapping nodes, string counters with saturation, free_call / free_sentence / dealloc_funp, "
-                  "destruct_object / destruct2) for all sequences of primitives; tied to the source by the regenerated "
-                  "counter widths and by running the real functions (unit style) and the real interpreter (LPC style) "
-                  "and the model on the same generated histories with identical per-value counters and driver statistics")
+                  "mapping nodes, string counters with saturation and the in-place decisions that read them, free_call / free_sentence / "
+                  "dealloc_funp, destruct_object / destruct2, call_out() including callbacks that raise an error or destruct their "
+                  "object, input_to / get_char, program_t.ref with clone / inherit / blueprint references (reference_prog, free_prog, "
+                  "deallocate_program), replace_programs(), reclaim_objects()) for all sequences of primitives: counter = number of holders, nothing "
+                  "freed while held, no dangling pointer anywhere, unreferenced values deallocated, statistics exact; tied to the "
+                  "source by the regenerated widths, counter updates and holder sites and by running the real functions (unit style) "
+                  "and the real interpreter (LPC style) and the model on the same generated histories with identical per-value "
+                  "counters and driver statistics")
     level_note = ("PARTIAL: the theorems cover the counting primitives and conventions; that each of the ~250 efuns and "
-                  "~120 opcode cases follows the convention on every path is only observed (per-value counters and "
-                  "statistics equal the model after every operation, counters back at the baseline, ASan), not proved. "
+                  "~120 opcode cases follows the convention on every path is only observed (72 efun/operator groups: per-value "
+                  "counters and statistics equal the model after every operation, also with an error injected at every "
+                  "instruction of 69 of them, counters back at the baseline, ASan), not proved.  The top statement "
+                  "`judge (model trace) = []` is proved clause-wise only for the per-value comparisons (oracle_ref_clause, "
+                  "oracle_freed_clause, oracle_leak_clause, oracle_string_clauses: on every model state the oracle's holder count equals "
+                  "the counter / is 0 for freed values; oracle_accepts_model_state: the oracle's declarative collection step is the identity on "
+                  "every state the model reaches); the simulation between the oracle's graph machine and the counting machine is not "
+                  "proved (the oracle is executed on the model's own traces and on 39 corrupted ones on every run instead).  "
                   "Trusted: Lean kernel; extract.py; the correspondence harness (differential, only the generated histories); "
                   "AddressSanitizer's poisoning as the 'has been freed' observation.")
     rule = ("cases = corpus + known-finding inputs + boundary list + seeded random histories (about 40 operations + "
@@ -489,7 +578,11 @@ class C06(Prop):
             "seen by every variable compared (strings are values), stack pushes and pops, call_outs whose callbacks keep their argument, add_action and input_to carry-over "
             "arguments, owners destructed while call_outs / sentences / an input_to are pending (dropped by the sweep, "
             "refused by the input), "
-            "destruct + deferred cleanup, errors thrown under live frames, 20 efun/operator groups with results dropped, "
+            "callbacks that raise an error or destruct their own object, clones / blueprint unloading / inherit references of "
+            "programs, replace_program() over four variable layouts, reclaim_objects() with destructed objects in variables / arrays / "
+            "classes / mapping keys and values / function pointer arguments, a callback that installs a new input_to, "
+            "destruct + deferred cleanup, errors thrown under live frames, 47 efun/operator groups with results dropped, an error "
+            "injected at the k-th instruction (or at every instruction in turn) of 69 efun groups and of restore_variable, "
             "25 'value builder aborted half-way' groups (callbacks of map/filter/sort/unique/implode raising after k calls, "
             "aggregates and call_other arguments with a failing element, sprintf/sscanf/regexp/allocate errors, built-in "
             "sort refusing its input) and restore_variable / restore_object on valid and damaged save texts (every "
@@ -498,13 +591,18 @@ class C06(Prop):
             "cyclic containers; a case is non-trivial when it has >= 2 executed operations; distinct = distinct "
             "canonical implementation trace")
     not_covered = ["that every efun (~250) and every opcode case (~120) follows the ownership convention on every path, "
-                   "including every error path, is observed on the generated programs only (20 efun/operator groups), not proved",
-                   "program_t.ref is modelled only as a counter beside the proved heap model (Drive.lean, ProgRef): its wrap is an "
-                   "open known finding; func_ref, inherit references and total_num_prog_blocks are not modelled",
-                   "one interactive user (create_test_interactive of the repository), input_to with flag 0 only; get_char "
-                   "shares the code path but is not called",
-                   "the fault-injection hook H2 of C05 is not used: error paths are errors raised by LPC code (nested frames, "
-                   "inside efun callbacks, under catch)",
+                   "including every error path, is observed on the generated programs only (72 efun/operator groups, 69 of them "
+                   "with an error injected at every instruction), not proved; never called: shadow, command / this_player hooks, ed, sockets",
+                   "the top statement judge (model trace) = [] is proved only clause-wise for the per-value comparisons on model states "
+                   "(oracle_*_clause); the simulation between the counting machine and the declarative fixpoint machine of the oracle "
+                   "(same state after every operation) and the statistics clauses are not proved; the oracle is exercised on the model's "
+                   "traces and on corrupted ones",
+                   "func_ref of programs is not modelled as a counter (only its width is an obligation); swapping, load_binary "
+                   "and total_num_prog_blocks are not modelled; replaceable() is not called",
+                   "one interactive user (create_test_interactive of the repository), input_to / get_char with flag 0 only",
+                   "error injection (hook H2) happens at instruction dispatch only: an error raised in the middle of an efun is "
+                   "covered only where LPC code can provoke it (the 25 'builder aborted half-way' groups); groups that build a cycle "
+                   "while they run are excluded from the injection",
                    "tot_alloc_sentence is a high-water mark (sentences are recycled through a free list) and is not compared",
                    "mapping hash order: the model releases the nodes of a mapping in insertion order"]
 
@@ -566,7 +664,10 @@ class C06(Prop):
             ("nodes+1", 7, st(3, 1), "counter=total_mapping_nodes"), ("nodes-1", 7, st(3, -1), "counter-low"),
             ("strings+1", 11, st(4, 1), "counter=num_distinct_strings by=+1"), ("strings-1", 9, st(4, -1), "counter-low"),
             ("objects+1", 19, st(6, 1), "counter=tot_alloc_object"), ("objects-at-end", 21, st(6, 1), "counter=tot_alloc_object"),
-            ("program-ref", 2, lambda l: setfld(l, "p:", "p:5"), "kind=program"), ("program-freed", 2, lambda l: setfld(l, "p:", "p:x"), "freed-while-held"),
+            ("program-ref", 2, lambda l: setfld(l, "p:", "p:5/2"), "kind=program prog=uobj"), ("program-freed", 2, lambda l: setfld(l, "p:", "p:x/2"), "freed-while-held op=2 kind=program"),
+            ("base-program-ref", 9, lambda l: setfld(l, "p:", fld(l, "p:").split("/")[0] + "/1"), "kind=program prog=base ref=1 holders=2"),
+            ("base-program-freed", 21, lambda l: setfld(l, "p:", fld(l, "p:").split("/")[0] + "/x"), "freed-while-held op=21 kind=program prog=base"),
+            ("injected-error-leak", 9, lambda l: st(0, 1)(l) + " k:17", "first-difference-at=k:17 counter=num_arrays by=+1"),
             ("name-refs+1", 13, lambda l: setfld(l, "f:", "f:2"), "function_name_string_refs by=+1"),
             ("name-refs-1", 9, lambda l: setfld(l, "f:", "f:0"), "counter-low"),
             ("shared-text-changed", 11, txt(2, "zbc"), "modified-while-shared"), ("own-text-wrong", 11, txt(3, "abc"), "text-mismatch"),
@@ -614,7 +715,7 @@ class C06(Prop):
             l = l.rstrip()
             if not l:
                 continue
-            if l.startswith("err ") or l.startswith("caught "):
+            if l.startswith("err ") or l.startswith("caught ") or l.startswith("note "):
                 continue                   # the master's error_handler log: errors are part of the scenarios
             if l.startswith("sanitizer ") and ("heap-use-after-free" in l or "double-free" in l):
                 out.append("uaf")          # ASan stopped the driver: the model's explicit use-after-free outcome
@@ -652,9 +753,41 @@ class C06(Prop):
                                                    "newfun 3 0 0", "call 0 0 1 0 0", "sent 0 0 0 0", "fill 4 64 0",
                                                    "free 0", "sweep", "rmsent 0", "free 4", "free 3", "free 2",
                                                    "mdel 1 2", "free 1", "dest 0", "cleanup", "drop 0"])
-        # program_t.ref: exact below the wrap (the wrap itself is the open known finding program-ref-wrap)
+        # program_t.ref (widened to 32 bits by repo commit 0280873; the 65 537-holder case is the `fixed` known record)
         mk("program-ref-300-clones", "unit", ["newobj 0", "clones 300", "dest 0", "unclone 5", "cleanup", "unclone 295",
                                               "drop 0"])
+        # inherit references: the base program is held by its blueprint and by the inherit table of /c06/uobj's
+        # program, which goes (and releases it) with the last clone after its blueprint has been unloaded
+        mk("program-inherit-unload", "unit", ["newobj 0", "clones 3", "unload 0", "newobj 1", "clones 2", "unload 1", "unclone 2",
+                                              "newarr 0 2", "setvar 0 1 0", "free 0", "dest 0", "unclone 1", "cleanup", "drop 0",
+                                              "newarr 1 1", "free 1"])
+        mk("program-unload-base-first", "unit", ["unload 1", "newobj 0", "clones 2", "unload 0", "unload 0", "dest 0", "cleanup",
+                                                 "unclone 2", "drop 0"])
+        mk("program-unload-no-clones", "unit", ["unload 0", "newarr 0 1", "unload 1", "free 0"])
+        mk("program-unload-pending", "unit", ["newobj 0", "newobj 1", "newarr 0 2", "call 0 0 1 0 0", "sent 0 1 0 0", "dest 0", "unload 0",
+                                              "cleanup", "unload 0", "sweep", "dest 1", "cleanup", "drop 0", "drop 1", "free 0"])
+        # replace_program(): every layout (offset of the kept variables below / at / above their number), both inherited
+        # programs, every variable holding a counted value; counters after the deferred replace_programs() and after destruct
+        for mode in ("unit", "lpc"):
+            for L, (na, nb) in enumerate(LAYOUTS):
+                for w in (0, 1):
+                    mk("replace-program-%d%d-%s-%s" % (na, nb, "ab"[w], mode), mode,
+                       ["newobjr 0 %d" % L, "newobjr 1 %d" % L, "newarr 0 2", "newmap 1", "newcls 2", "newmstr 3 rp", "mset 1 0 2",
+                        "setvar 0 0 0", "setvar 0 1 1", "setvar 0 2 2", "setvar 0 3 3", "setvar 1 3 0", "free 0", "free 1", "free 2", "free 3",
+                        "replace 0 %d" % w, "getvar 4 0 0", "getvar 5 0 1", "getvar 6 0 2", "setvar 0 0 5", "replace 0 %d" % w, "replace 1 %d" % (1 - w),
+                        "free 4", "free 5", "free 6", "dest 0", "cleanup", "drop 0", "newobjr 2 %d" % L, "replace 2 %d" % w, "dest 2", "dest 1",
+                        "cleanup", "drop 1", "drop 2"])
+        for mode in ("unit", "lpc"):
+            # a call_out callback that raises an error: its arguments are popped by the error recovery of call_out()
+            mk("callout-callback-raises-" + mode, mode,
+               ["newobj 0", "newarr 0 2", "newmap 1", "call 0 0 2 0 1", "call 1 0 1 1 0", "call 2 0 2 1 1", "free 0", "sweep",
+                "getvar 3 0 1", "free 1", "free 3", "call 3 0 2 3 3", "dest 0", "sweep", "cleanup", "drop 0"])
+            # a callback that destructs its own object: the newest call runs first, the older calls of the same owner are
+            # dropped; the object may be an argument of the call and (unit mode) sit on the value stack
+            mk("callout-callback-destructs-" + mode, mode,
+               ["newobj 0", "newobj 1", "newarr 0 2", "oref 2 0", "push 2", "sent 0 0 0 0", "inp 0 0 0", "call 0 0 1 0 0", "call 1 0 3 0 2",
+                "call 2 1 1 0 0", "call 3 1 3 2 2", "free 0", "sweep", "pop", "free 2", "input", "cleanup", "drop 0", "getvar 4 1 2",
+                "free 4", "drop 1", "cleanup"])
         for mode in ("unit", "lpc"):
             # pending call_outs with arguments whose owner is destructed before they are due: dropped by the sweep
             mk("callout-owner-destructed-" + mode, mode,
@@ -668,6 +801,10 @@ class C06(Prop):
             mk("sentence-owner-destructed-" + mode, mode,
                ["newobj 0", "newarr 0 2", "newmap 1", "sent 0 0 0 1", "sent 3 0 1 1", "inp 0 1 0", "free 0", "free 1",
                 "dest 0", "cleanup", "input", "drop 0"])
+            # re-entrancy: the callback installs a new input_to (arguments swapped); owner alive / destructed
+            mk("input_to-rearmed-" + mode, mode,
+               ["newobj 1", "newarr 0 2", "newmap 1", "inpr 1 0 1", "free 0", "input", "inp 1 1 1", "free 1", "input", "input",
+                "newcls 2", "inpr 1 2 2", "dest 1", "free 2", "input", "input", "cleanup", "drop 1"])
             mk("input_to-delivered-" + mode, mode,
                ["newobj 1", "newarr 0 2", "newfun 1 1 0", "inp 1 0 1", "inp 1 1 1", "free 0", "free 1", "input", "input",
                 "inp 1 0 0", "dest 1", "input", "cleanup", "drop 1"])
@@ -695,6 +832,23 @@ class C06(Prop):
                                             "free 0", "pop", "free 1", "free 2"])
         mk("stack-moves", "unit", ["newarr 0 2", "newmap 1", "push 0", "pushr 1", "push 0", "popto 2", "pop", "popto 3",
                                    "free 0", "free 2", "free 3"])
+        # reclaim_objects(): destructed objects referenced from variables (handles; array / mapping key / mapping value /
+        # function pointer argument built around them) are released, live ones are kept
+        # unit mode: the walk itself - a destructed object directly in a variable, in an array, in a class, as bound argument of a
+        # function pointer, as key and as value of a mapping (node deleted / value zeroed), behind a live object key, shared twice
+        mk("reclaim-objects-unit", "unit",
+           ["newobj 0", "newobj 1", "newobj 2", "newobj 3", "oref 0 1", "oref 1 2", "newarr 2 3", "aset 2 0 0", "aset 2 1 1", "newmap 3",
+            "newarr 4 2", "mset 3 0 4", "mset 3 1 2", "mset 3 5 1", "newcls 5", "aset 5 1 0", "aset 4 0 5", "newfun 6 3 0", "oref 7 3",
+            "mset 3 7 0", "setvar 0 0 0", "setvar 0 1 2", "setvar 0 2 3", "setvar 3 0 6", "setvar 3 1 2", "reclaimu", "dest 1", "reclaimu",
+            "dest 2", "reclaimu", "reclaimu", "cleanup", "free 0", "free 1", "free 7", "reclaimu", "dest 3", "reclaimu", "free 2", "free 3", "free 4", "free 5",
+            "free 6", "cleanup", "dest 0", "cleanup", "drop 0", "drop 1", "drop 2", "drop 3"])
+        # the recursion counter of check_svalue is not decremented on overflow: after a cyclic value in an earlier variable (a
+        # slot) the handles are no longer reached - the model mirrors that
+        mk("reclaim-after-cycle-lpc", "lpc", ["fill 6 2 8", "aset 6 0 6", "newobj 0", "newobjr 1 1", "dest 0", "dest 1", "reclaim", "aset 6 0 5",
+                                              "reclaim", "free 6", "reclaim", "cleanup"])
+        mk("reclaim-objects-lpc", "lpc", ["newobj 0", "newobj 1", "newobj 2", "newobjr 3 2", "newarr 0 2", "newmap 1", "setvar 1 0 0",
+                                          "reclaim", "dest 0", "dest 3", "reclaim", "reclaim", "cleanup", "dest 2", "cleanup", "reclaim",
+                                          "getvar 2 1 0", "dest 1", "reclaim", "cleanup", "free 0", "free 1", "free 2"])
         mk("errors-lpc", "lpc", ["newarr 0 2", "newmap 1", "newobj 0", "mset 1 0 0", "err 0 1", "efun 10 0 1",
                                  "efun 11 0 1", "err 1 0", "free 0", "free 1", "dest 0", "cleanup", "drop 0"])
         # repaired defects: copy() beyond the nesting limit leaked the partial copy; copy() of a class miscounted arrays
@@ -718,6 +872,13 @@ class C06(Prop):
         mk("builders-aborted-lpc", "lpc", ["newarr 0 2", "newmap 1", "mset 1 0 0", "newcls 2", "aset 2 0 1"] +
            ["efun %d %d %d" % (f, f % 3, (f + 1) % 3) for f in range(20, NEFUN)] +
            ["efun %d %d %d" % (f, (f + 1) % 3, f % 3) for f in range(20, NEFUN)] + ["free 0", "free 1", "free 2"])
+        # error paths, systematically (hook H2): every efun group with an error injected at every instruction in turn
+        fg = [f for f in range(NEFUN) if f not in NO_FAULT]
+        for part in range(0, len(fg), 12):
+            mk("efuns-error-injected-%d" % (part // 12), "lpc", ["newarr 0 3", "newmap 1", "mset 1 0 0", "aset 0 0 1", "newcls 2", "aset 2 0 1"] +
+               ["fefun %d %d %d 0" % (f, f % 3, (f + 1) % 3) for f in fg[part:part + 12]] + ["free 0", "free 1", "free 2"])
+        mk("restore-error-injected", "lpc", ["newarr 0 2"] + ["frest %s 0" % save_text(b) for b in SAVE_BASES] +
+           ["frest %s 0" % save_text(SAVE_BASES[1])[:k] for k in (9, 17, 30)] + ["free 0"])
         mk("efuns-lpc", "lpc", ["newarr 0 3", "newmap 1", "mset 1 0 0", "aset 0 0 1"] +
            ["efun %d %d %d" % (f, f % 2, (f + 1) % 2) for f in range(NEFUN)] + ["free 0", "free 1"])
         return B
@@ -726,7 +887,9 @@ class C06(Prop):
         mode = "unit" if rng.chance(1, 2) else "lpc"
         cyclic = rng.chance(3, 20)
         g = Gen(rng, mode, cyclic)
-        for _ in range(rng.range(8, 60)):
+        n = rng.range(8, 60)
+        for i in range(n):
+            g.late = i > n // 2
             g.op()
         g.teardown()
         return E.Case(cid, ["mode " + mode] + g.lines, {"origin": "generated", "cyclic": cyclic})
